@@ -525,7 +525,7 @@ def gen_name_session(rng):
         return rng.choice(['("%s" + "%s")' % (p1, p2),
                            '(std.char(%d) + "%s")' % (ord(name[0]), name[1:]),
                            '("%%s%%s" %% ["%s", "%s"])' % (p1, p2),
-                           'std.join("", ["%s", "%s"])' % (p1, p2),
+                           'std.join("", ["%s", "%s"])' % (p1, p2), '"%s"' % name,
                            'std.substr("_%s_", 1, %d)' % ('" + "'.join([p1, p2]), len(name)) if False else '("%s" + "%s")' % (name[:1], name[1:])])
 
     def O():   # objects without / with the field (the field itself has a computed name)
@@ -566,13 +566,46 @@ def gen_name_session(rng):
             return S('%s in super' % N())
         return 'std.mergePatch(%s, { [%s]: null })' % (O(), N())
 
+    def BAD():   # an ill-typed value for the OTHER arguments of the call
+        return rng.choice(['"yes"', 'null', '5', '[true]', '{ }', 'function(x) x'])
+
+    def ill_typed_client():
+        k = rng.randrange(12)
+        if k == 0:
+            return 'std.objectHasEx(%s, %s, %s)' % (O(), N(), BAD())
+        if k == 1:
+            return 'std.objectHasEx(%s, %s, true)' % (BAD(), N())
+        if k == 2:
+            return 'std.get(%s, %s, "dflt", %s)' % (O(), N(), BAD())
+        if k == 3:
+            return 'std.get(%s, %s)' % (BAD(), N())
+        if k == 4:
+            return 'std.objectRemoveKey(%s, %s)' % (BAD(), N())
+        if k == 5:
+            return 'std.objectHas(%s, %s)' % (BAD(), N())
+        if k == 6:
+            return 'std.objectHasAll(%s, %s)' % (BAD(), N())
+        if k == 7:
+            return '(%s)[%s]' % (BAD(), N())
+        if k == 8:
+            return '%s in (%s)' % (N(), BAD())
+        if k == 9:
+            return '("%%(" + %s + ")s") %% (%s)' % (N(), BAD())
+        if k == 10:
+            return 'std.mergePatch(%s, { [%s]: %s })' % (BAD(), N(), BAD())
+        return 'std.objectHasEx(%s, %s, %s) || std.get(%s, %s, false, %s)' % (O(), N(), BAD(), O(), N(), BAD())
+
     interners = ['{ k: 1, other: 2 }',                       # s0: a library object without the name
                  '{ %s: 1 }' % name, 'local x = { %s: 1 }; 0' % name, 'function(%s) 0' % name,
-                 'local %s = 1; %s' % (name, name), '{ o: { %s:: 2 } }.o' % name]
-    srcs = [interners[0]] + rng.sample(interners[1:], 2)
+                 'local %s = 1; %s' % (name, name), '{ o: { %s:: 2 } }.o' % name,
+                 # loads that FAIL after the identifier has been lexed (parse error / unknown variable)
+                 'local %s = ; 0' % name, '{ %s: }' % name, '%s' % name, '[1, %s' % name,
+                 # the name interned by an evaluation only (string literals are not interned by a load)
+                 '"%s" in { }' % name, '{ ["%s" + "%s"]: 1 }' % (p1, p2), 'std.objectHas({ }, "%s")' % name]
+    srcs = [interners[0]] + rng.sample(interners[1:], 3)
     ni = len(srcs)
     for _ in range(rng.randint(3, 6)):
-        srcs.append(client())
+        srcs.append(ill_typed_client() if rng.random() < 0.4 else client())
     reqs = []
     for _ in range(rng.randint(3, 8)):
         r = rng.random()
@@ -893,7 +926,8 @@ def check(run):
                 'requests forcing the same element repeatedly under different limits. '
                 'name sessions: a field name computed at run time (+, std.char, %, join) used through o[e], e in o, objectHas/All/Ex, std.get, '
                 'objectRemoveKey, %(key)s, mergePatch, extVar, native, super[e], e in super, on objects with/without the field and with/without '
-                'a super object, while other sources that contain the name statically are loaded/evaluated before, after, or never. '
+                'a super object, also with ill-typed other arguments (non-boolean inc_hidden, non-object receiver), while other sources intern the '
+                'name by a load, a load that fails after lexing it, or an evaluation, before, after, or never. '
                 'derive sessions: 2..3 shared library values with late-bound fields a/b/c built by literal / comprehension / + / super / '
                 'objectRemoveKey / mergePatch / mapWithKey / function result / nested, 3..8 requests that force fields and, later, derive new '
                 'objects from the same values (extend either side, override, remove, patch; also through eval_call) and read late-bound fields. '
